@@ -324,11 +324,11 @@ def check_c02(ctx):
 
 def check_c09(ctx):
     q = ctx.tier == "quick"
-    mc = {"SUBS": "", "RELOADS": 2, "TOUCH": 1} if q else {"SUBS": "", "RELOADS": 3, "TOUCH": 1}
+    mc = {"SUBS": "", "RELOADS": 2, "TOUCH": 1} if q else {"SUBS": "", "RELOADS": 2, "TOUCH": 2}
     ctx.cov["constants"]["MC_Reload"] = mc
     ctx.tlc_must_pass("Balancer", "Reload", "MC_Reload.cfg", defines=mc, timeout=2400)
     g = {"RELOADS": 4, "TOUCH": 4, "OPS": 12}
-    r = ctx.tlc("Balancer", "GenReload", "Gen_Reload.cfg", mode="sim", sim_num=150 if q else 3000, sim_depth=16,
+    r = ctx.tlc("Balancer", "GenReload", "Gen_Reload.cfg", mode="sim", sim_num=150 if q else 1500, sim_depth=16,
                 defines=g, timeout=1800, count=False)
     if not r.ok or not r.cases:
         raise vlib.MachineryError("GenReload failed: %s %s" % (r.error or r.violation, r.out[-400:]))
